@@ -133,6 +133,11 @@ struct carquet_column_reader {
 
     /* Retained page data for BYTE_ARRAY value pointers */
     uint8_t* page_data_for_values;
+    /* Buffers of earlier pages whose values were handed out by the current
+     * read call; released at the start of the next call */
+    uint8_t** retired_pages;
+    int32_t num_retired_pages;
+    int32_t retired_pages_capacity;
 
     /* Current page state for partial reads */
     bool page_loaded;           /* Is a page currently loaded? */
